@@ -11,8 +11,10 @@
        ([cluster_slots] slots, > 0) while free clusters remain ([free] of them), else Err(NotEnoughSpace); reading
        at the end gives the same all-zero entry.
    Cluster and root sizes are multiples of 32, and DirEntryData::serialize starts with the 11 name bytes, so a slot is
-   either written completely or not at all: failures are slot-granular and leave the slots written so far
-   (findings D5/D20, modelled faithfully).  Every function returns the outcome AND the resulting slots.
+   either written completely or not at all: failures are slot-granular and leave the slots written so far (a chain that
+   cannot grow: finding "nospace during entry write", modelled faithfully).  A FIXED root that cannot take the new run is
+   refused by find_free_entries with NotEnoughSpace before anything is written (13fd5fe; formerly D5/D20: WriteZero after
+   a partial run).  Every function returns the outcome AND the resulting slots.
    No proofs here. *)
 From FatVerif Require Import Model.Base Model.Str Model.Slot Model.Time Model.Name Model.ShortName.
 From FatVerif Require Model.Lfn.
@@ -43,33 +45,46 @@ Fixpoint set_nth {A} (i : nat) (x : A) (l : list A) : list A :=
 (* ---------- Dir::find_free_entries ---------------------------------------------------------
    loop { raw = deserialize; if raw.is_end() {..return} else if raw.is_deleted() {..} else {num_free = 0}; i += 1 }
    first_free, num_free, i are u32 (checked arithmetic of a debug build).  Running out of slots is the UnexpectedEof
-   case of deserialize: an all-zero entry, i.e. an end marker at index = number of slots; there is NO capacity
-   check for a fixed root here. *)
-Fixpoint find_free_go (ss : slots) (num first_free num_free i : N) : res N :=
+   case of deserialize: an all-zero entry, i.e. an end marker at index = number of slots.
+   The loop has two exits; the result carries which one was taken: (true, first_free) = the is_end() branch (end marker,
+   or end of the slot list), (false, first_free) = the is_deleted() branch with num_free == num_entries. *)
+Fixpoint find_free_go (ss : slots) (num first_free num_free i : N) : res (bool * N) :=
   match ss with
-  | [] => Ok (if num_free =? 0 then i else first_free)
+  | [] => Ok (true, if num_free =? 0 then i else first_free)
   | s :: r =>
     let raw := slot_decode s in
-    if slot_is_end raw then Ok (if num_free =? 0 then i else first_free)
+    if slot_is_end raw then Ok (true, if num_free =? 0 then i else first_free)
     else if slot_is_deleted raw then
       let ff := if num_free =? 0 then i else first_free in
       do nf <- u32_add num_free 1;
-      if nf =? num then Ok ff
+      if nf =? num then Ok (false, ff)
       else do i' <- u32_add i 1; find_free_go r num ff nf i'
     else
       do i' <- u32_add i 1; find_free_go r num first_free 0 i'
   end.
 
-(* the stream is positioned at u64::from(first_free * DIR_ENTRY_SIZE): the product is computed in u32.
-   Result: the slot index at which the caller starts writing. *)
-Definition find_free_entries (ss : slots) (num : N) : res N :=
-  do ff <- find_free_go ss num 0 0 0;
-  do _ <- u32_mul ff DIR_ENTRY_SIZE;
-  Ok ff.
+Definition is_fixed (k : dkind) : bool := match k with FixedRoot => true | Chained _ => false end.
+
+(* Both exits compute pos = u64::from(first_free * DIR_ENTRY_SIZE): the product is computed in u32 (checked).
+   In the is_end() branch of a FIXED root (DirRawStream::Root(slice); since 13fd5fe):
+       if pos + u64::from(num_entries) * u64::from(DIR_ENTRY_SIZE) > slice.size() { return Err(NotEnoughSpace) }
+   - u64 arithmetic that cannot overflow (pos < 2^32, num_entries < 2^32); slice.size() is the byte size of the whole root
+   region, here 32 * the number of slots of [ss] (for a FixedRoot [ss] is the WHOLE region, to the end of its last
+   sector).  The is_deleted() exit has no such check (the run it found lies inside the region).  Nothing has been
+   written at this point.  Result: the slot index at which the caller starts writing. *)
+Definition find_free_entries (k : dkind) (ss : slots) (num : N) : res N :=
+  do r <- find_free_go ss num 0 0 0;
+  let '(at_end, ff) := r in
+  do pos <- u32_mul ff DIR_ENTRY_SIZE;
+  if at_end && is_fixed k && (len_N ss * DIR_ENTRY_SIZE <? pos + num * DIR_ENTRY_SIZE) then Err ENotEnoughSpace
+  else Ok ff.
 
 (* ---------- writing consecutive slots through the stream ------------------------------------
    [i] is the stream position in slots.  find_free_entries never positions the stream beyond the end (its result is
-   <= the number of slots), so [i <= length ss] always holds here; a position at the end is the "write at EOF" case. *)
+   <= the number of slots), so [i <= length ss] always holds here; a position at the end is the "write at EOF" case.
+   The stream itself is modelled faithfully: a DiskSlice write at its end still returns 0 bytes (WriteZero).  Since
+   13fd5fe find_free_entries refuses a run that does not fit into a fixed root, so write_entry never reaches that branch
+   (Proofs/DirSlotsProofs.write_entry_fixed_root_total). *)
 Fixpoint write_run (k : dkind) (free : nat) (ss : slots) (i : nat) (run : slots) : res unit * slots :=
   match run with
   | [] => (Ok tt, ss)
@@ -97,7 +112,7 @@ Definition write_entry (k : dkind) (free : nat) (ss : slots) (name : str) (e : s
   lift (validate_long_name name) ss (fun _ =>
     let run := entry_run name e in
     (* num_entries = lfn_iter.len() as u32 + 1, or find_free_entries(1) for the dot names *)
-    lift (find_free_entries ss (len_N run)) ss (fun p =>
+    lift (find_free_entries k ss (len_N run)) ss (fun p =>
       let '(r, ss') := write_run k free ss (N.to_nat p) run in
       (do _ <- r; Ok (p, p + len_N run), ss'))).
 
@@ -181,7 +196,8 @@ Section Dir.
     end.
 
   (* the directory part of create_file (attrs = 0, no cluster, want_dir = false) and create_dir (attrs = DIRECTORY,
-     the freshly allocated cluster, want_dir = true).  Ok None: the entry already existed, nothing is written. *)
+     the freshly allocated cluster, want_dir = true).  Ok None: the entry already existed, nothing is written.
+     (Not a slot matter: when write_entry fails, create_dir gives the freshly allocated cluster back - 087b5c6.) *)
   Definition create_entry (k : dkind) (free : nat) (ss : slots) (name : str) (attrs : N) (cluster : option N)
              (now : datetime) (want_dir : bool) : dres (option (N * N)) :=
     lift (check_for_existence ss name (Some want_dir)) ss (fun r =>
@@ -223,21 +239,23 @@ Section Dir.
     | lfn => str_eqb lfn (utf16_encode name)
     end.
 
-  (* the tail of rename_internal: the deletion loop over the source slots, then write_entry of
-     e.data.renamed(short_name) under the new name (which may fail: D20) *)
+  (* the tail of rename_internal (order since d9f4de8): FIRST write_entry of e.data.renamed(short_name) under the new name -
+     when it fails the call returns with the source untouched -, THEN the deletion loop over the source's offset_range,
+     reading the slots as they are after the write (write_entry only writes into free slots or appends, so the source's
+     slots are where they were: Proofs/DirSlotsProofs.rename_slots_refines).  The new entry therefore never reuses the
+     slots of the source. *)
   Definition rename_rewrite (k : dkind) (free : nat) (ss : slots) (e : Lfn.entry_view) (dst : str) (short_name : list N)
     : dres unit :=
-    let ss1 := delete_entry ss e in
-    let '(w, ss2) := write_entry k free ss1 dst (renamed (entry_data ss e) short_name) in
-    (do _ <- w; Ok tt, ss2).
+    let '(w, ss1) := write_entry k free ss dst (renamed (entry_data ss e) short_name) in
+    lift w ss1 (fun _ => (Ok tt, delete_entry ss1 e)).
 
   (* rename_internal with dst_dir = self.  ORDER of the code: find the source ("." and ".." directory entries are
-     refused: InvalidInput), check the destination, delete the source slots, then write the new entry.
+     refused: InvalidInput), check the destination, write the new entry, then delete the source slots.
      When the destination name resolves to an existing entry: another entry -> AlreadyExists; the SOURCE ENTRY ITSELF
      (is_same_entry: equal entry_pos, i.e. the same short slot) -> nothing happens only if the entry is stored under
      exactly this spelling (has_exact_name); otherwise (another case of the long name, or the entry's own alias) the
      entry is REWRITTEN with the new long name and the SAME raw short name (the copy of e.raw_short_name()), through
-     the same delete-then-write path.  (This branch used to be an unconditional no-op: D22, fixed in 46d26a5.)
+     the same write-then-delete path.  (This branch used to be an unconditional no-op: D22, fixed in 46d26a5.)
      Outside this layer (tree level, other directories): for a source DIRECTORY the walk from dst_dir up the ".."
      entries that refuses a move into itself (InvalidInput, before the existence check), and after a successful write
      the update of the moved directory's own ".." entry. *)
@@ -265,9 +283,14 @@ Section Dir.
       match check_for_existence dst_ss dst None with
       | Ok (Exists _) => (Err EAlreadyExists, (src_ss, dst_ss))      (* entries of different directories are never the same *)
       | Ok (Fresh a) =>
-        let src1 := delete_entry src_ss e in
+        (* the new entry first; the source is deleted only when that write succeeded (d9f4de8) *)
         let '(w, dst1) := write_entry kd freed dst_ss dst (renamed (entry_data src_ss e) a) in
-        (do _ <- w; Ok tt, (src1, dst1))
+        match w with
+        | Ok _ => (Ok tt, (delete_entry src_ss e, dst1))
+        | Err x => (Err x, (src_ss, dst1))
+        | Panic => (Panic, (src_ss, dst1))
+        | OutOfFuel => (OutOfFuel, (src_ss, dst1))
+        end
       | Err x => (Err x, (src_ss, dst_ss))
       | Panic => (Panic, (src_ss, dst_ss))
       | OutOfFuel => (OutOfFuel, (src_ss, dst_ss))
